@@ -66,6 +66,9 @@ pub struct Outcome {
     pub trace: Vec<String>,
     pub sample: Option<J>,
     pub faulty_cfg: bool,
+    /// evaluation units in this run (1 unless a family evaluates many cases
+    /// per run, e.g. one faulted write per unit)
+    pub units: u64,
 }
 
 impl Outcome {
@@ -80,6 +83,7 @@ impl Outcome {
             trace: Vec::new(),
             sample: None,
             faulty_cfg: false,
+            units: 1,
         }
     }
 }
